@@ -397,4 +397,14 @@ theorem lsample_continue (ds : Nat → V) (g : LG N V) (a b : Nat) (ha : 1 ≤ a
   rw [lsample_next ds _ b _ _ (lrun_last ds g.names false a 0 _ ha) rfl rfl]
   simp [lrun_add, lrun_length]
 
+/-- first call with warm-up: the warm-up loop runs from the initial points, the sampling loop goes on
+    from the state the warm-up ended in -/
+theorem lsample_fresh (ds : Nat → V) (g : LG N V) (Ns Nb : Nat) (hw : g.warm = none) (hs : g.samples = none) :
+    lsample ds g Ns Nb =
+      let w := lrun ds g.names true Nb 0 (linit0 g, g.pos, g.log)
+      let r := lrun ds g.names false Ns 0 w.2
+      .ok { g with samples := some r.1, warm := some w.1, pos := r.2.2.1, log := r.2.2.2 } := by
+  unfold linit0
+  simp [lsample, linit, hw, hs, lloop_eq_nil]
+
 end CuqiVerif.C09
